@@ -6,3 +6,10 @@ package staticsources
 func VerifC42ResolveSource(s string, matches []string, query string) string {
 	return resolveSource(s, matches, query)
 }
+
+// VerifC42SetInstance replaces the protocol client of a handler that has been initialized but not
+// started yet by a recording one (history dimension of C42: the handler's own Start/Stop/run code
+// and resolveSource stay the real ones).
+func VerifC42SetInstance(s *Handler, inst staticSource) {
+	s.instance = inst
+}
